@@ -236,6 +236,10 @@ def run_object(case, all_sync):
     p.logfile_read = LogRec()
     loop = VLoop(clk)
     asyncio.set_event_loop(loop)
+    loop_errors = []
+    # what the loop would print (an exception inside a protocol callback, a fatal transport error) is collected instead: a read error of the
+    # transport is part of some scenarios, anything else is judged
+    loop.set_exception_handler(lambda l_, cx: loop_errors.append('%s: %r' % (cx.get('message'), cx.get('exception'))) if not isinstance(cx.get('exception'), OSError) else None)
 
     async def main():
         for op in case['ops']:
@@ -319,7 +323,7 @@ def run_object(case, all_sync):
                 c()
             except Exception:
                 pass
-    return dict(recs=recs, log=log, fin=fin, logged=logged, wrong_type=wrong_type)
+    return dict(recs=recs, log=log, fin=fin, logged=logged, wrong_type=wrong_type, loop_errors=loop_errors)
 
 
 FIELDS = ('out', 'before', 'after', 'match', 'buffer', 'match_index')
@@ -620,6 +624,8 @@ def run(ctx):
             common.report(ctx, KNOWN_EOF, 'an EOF was delivered while no awaited call was outstanding; afterwards the awaited history differs from the twin '
                           '(%s)' % (d[1] if d else [r['out'] for r in a['recs'] if r['out'].startswith('EXC')][0]), dict(case=c))
             continue
+        if d is None and a.get('loop_errors'):
+            d = (len(a['recs']) - 1, 'exception inside the event loop', a['loop_errors'][0][:160], None)
         if d is None and a.get('wrong_type'):
             d = (len(a['recs']) - 1, 'logfile_read type', a['wrong_type'][0], 'str' if c.get('encoding') else 'bytes')
         if d is None and not c.get('encoding'):
@@ -700,6 +706,10 @@ def known_eof_scenario():
     p, write, finish, ctl, cleanup = make_peer('fd', clk)
     loop = VLoop(clk)
     asyncio.set_event_loop(loop)
+    loop_errors = []
+    # what the loop would print (an exception inside a protocol callback, a fatal transport error) is collected instead: a read error of the
+    # transport is part of some scenarios, anything else is judged
+    loop.set_exception_handler(lambda l_, cx: loop_errors.append('%s: %r' % (cx.get('message'), cx.get('exception'))) if not isinstance(cx.get('exception'), OSError) else None)
     out = {}
 
     async def main():
